@@ -567,7 +567,7 @@ func (e *exh) refineAt(av0 *AV, v ssa.Value, at *ssa.BasicBlock, ctx *Ctx) *AV {
 	switch av0.kind {
 	case "shapes", "types", "ints":
 	default:
-		return e.refine(av0, v, factsAt(at), ctx, at)
+		return e.refine(av0, v, realFacts(factsAt(at)), ctx, at)
 	}
 	fn := at.Parent()
 	def := fn.Blocks[0]
@@ -594,7 +594,7 @@ func (e *exh) refineAt(av0 *AV, v ssa.Value, at *ssa.BasicBlock, ctx *Ctx) *AV {
 		for si, s := range b.Succs {
 			out := cur
 			if isIf && len(b.Succs) == 2 && b.Succs[0] != b.Succs[1] && e.condMentions(iff.Cond, v) {
-				out = e.refine(cur, v, appendFact(nil, Fact{iff.Cond, si == 0}, 0), ctx, b)
+				out = e.refine(cur, v, realFacts(appendFact(nil, Fact{Cond: iff.Cond, Truth: si == 0}, 0)), ctx, b)
 			}
 			if out.empty() {
 				continue
@@ -698,7 +698,7 @@ func (e *exh) eval(v ssa.Value, ctx *Ctx, at *ssa.BasicBlock, depth int) *AV {
 	case *ssa.Phi:
 		var useFacts []Fact
 		if at != nil {
-			useFacts = factsAt(at)
+			useFacts = realFacts(factsAt(at))
 		}
 		for i, ed := range x.Edges {
 			if e.phiEdgeExcluded(x, i, at, ctx) {
@@ -724,14 +724,14 @@ func (e *exh) eval(v ssa.Value, ctx *Ctx, at *ssa.BasicBlock, depth int) *AV {
 				} else if e.kindOf(sib.Type()) == "bool" {
 					for _, f := range useFacts {
 						if f.Cond == ssa.Value(sib) {
-							extra = append(extra, Fact{sib.Edges[i], f.Truth})
+							extra = append(extra, Fact{Cond: sib.Edges[i], Truth: f.Truth})
 						}
 					}
 				}
 			}
 			sub := e.eval(ed, ctx, pred, depth+1)
 			sub = e.refineAt(sub, ed, pred, ctx)
-			sub = e.refine(sub, ed, edgeFacts(pred, succIndex(pred, x.Block()))[:edgeOwn(pred)], ctx, pred)
+			sub = e.refine(sub, ed, realFacts(edgeFacts(pred, succIndex(pred, x.Block())))[:edgeOwn(pred)], ctx, pred)
 			if len(extra) > 0 {
 				sub = e.refine(sub, ed, extra, ctx, pred)
 			}
@@ -1031,7 +1031,7 @@ func (e *exh) callResult1(c *ssa.Call, idx int, ctx *Ctx, at *ssa.BasicBlock, de
 				sub.bind[q] = e.evalAt(a, ctx, c.Block())
 			}
 		}
-		facts := factsAt(at)
+		facts := realFacts(factsAt(at))
 		for _, r := range returnsOf(f) {
 			if idx >= len(r.Results) {
 				continue
@@ -1087,7 +1087,7 @@ func (e *exh) callResult1(c *ssa.Call, idx int, ctx *Ctx, at *ssa.BasicBlock, de
 				}
 			}
 			rv := e.eval(r.Results[idx], sub, r.Instr.Block(), nd)
-			rv = e.refine(rv, r.Results[idx], factsAt(r.Instr.Block()), sub, r.Instr.Block())
+			rv = e.refine(rv, r.Results[idx], realFacts(factsAt(r.Instr.Block())), sub, r.Instr.Block())
 			for _, b := range setBool {
 				delete(e.assumeBool, b)
 			}
@@ -1145,7 +1145,7 @@ func (e *exh) returnExcluded(c *ssa.Call, r RetSite, facts []Fact) bool {
 				}
 			}
 			definitelyNonNil := e.definitelyNonNilErr(rv, 0)
-			if _, nn := nilFact(factsAt(r.Instr.Block()), stripConv(rv)); nn {
+			if _, nn := nilFact(realFacts(factsAt(r.Instr.Block())), stripConv(rv)); nn {
 				definitelyNonNil = true
 			}
 			definitelyNil := isNilConst(stripConv(rv))
@@ -1223,7 +1223,7 @@ func (e *exh) phiEdgeExcluded(ph *ssa.Phi, i int, at *ssa.BasicBlock, ctx *Ctx) 
 	if at == nil {
 		return false
 	}
-	facts := factsAt(at)
+	facts := realFacts(factsAt(at))
 	for _, ins := range ph.Block().Instrs {
 		sib, ok := ins.(*ssa.Phi)
 		if !ok {
@@ -1274,7 +1274,7 @@ func (e *exh) refine(av *AV, v ssa.Value, fs []Fact, ctx *Ctx, at *ssa.BasicBloc
 			}
 			var u *AV
 			for _, o := range ops {
-				r := e.refine(out.clone(), v, appendFact(nil, Fact{o, f.Truth}, 0), ctx, at)
+				r := e.refine(out.clone(), v, realFacts(appendFact(nil, Fact{Cond: o, Truth: f.Truth}, 0)), ctx, at)
 				if u == nil {
 					u = r.clone()
 				} else {
@@ -1512,7 +1512,7 @@ func (e *exh) feasible(b *ssa.BasicBlock, ctx *Ctx) bool {
 
 // feasibleQuick: cheap necessary check with the dominator-chain facts only.
 func (e *exh) feasibleQuick(b *ssa.BasicBlock, ctx *Ctx) bool {
-	fs := factsAt(b)
+	fs := realFacts(factsAt(b))
 	done := map[ssa.Value]bool{}
 	for _, f := range fs {
 		for _, subj := range factSubjects(f) {
@@ -1545,14 +1545,14 @@ func (e *exh) edgeOK(p *ssa.BasicBlock, si int, ctx *Ctx) bool {
 	if !ok || len(p.Succs) != 2 || p.Succs[0] == p.Succs[1] {
 		return true
 	}
-	f := Fact{iff.Cond, si == 0}
+	f := Fact{Cond: iff.Cond, Truth: si == 0}
 	for _, subj := range factSubjects(f) {
 		k := e.kindOf(subj.Type())
 		if k == "other" || k == "funcs" {
 			continue
 		}
 		av := e.evalAt(subj, ctx, p)
-		av = e.refine(av, subj, appendFact(nil, f, 0), ctx, p)
+		av = e.refine(av, subj, realFacts(appendFact(nil, f, 0)), ctx, p)
 		if av.empty() {
 			return false
 		}
@@ -1595,7 +1595,7 @@ func factSubjects(f Fact) []ssa.Value {
 		if ops, _, ok := shortCircuit(c, 0); ok {
 			var out []ssa.Value
 			for _, o := range ops {
-				out = append(out, factSubjects(Fact{o, f.Truth})...)
+				out = append(out, factSubjects(Fact{Cond: o, Truth: f.Truth})...)
 			}
 			return out
 		}
@@ -1609,7 +1609,7 @@ func factSubjects(f Fact) []ssa.Value {
 		}
 	case *ssa.UnOp:
 		if c.Op == token.NOT {
-			return factSubjects(Fact{c.X, !f.Truth})
+			return factSubjects(Fact{Cond: c.X, Truth: !f.Truth})
 		}
 	}
 	return nil
@@ -1737,7 +1737,7 @@ func (e *exh) feasibleContexts(b *ssa.BasicBlock) []*Ctx {
 	return out
 }
 
-// edgeOwn: number of leading facts of edgeFacts(p, i) that come from p's own
+// edgeOwn: number of leading facts of realFacts(edgeFacts(p, i)) that come from p's own
 // branch (0 or 1).
 func edgeOwn(p *ssa.BasicBlock) int {
 	if _, ok := p.Instrs[len(p.Instrs)-1].(*ssa.If); ok && len(p.Succs) == 2 && p.Succs[0] != p.Succs[1] {
